@@ -332,7 +332,21 @@ class Interp:
             key = eng.field_kind(obj.cls, attr)
             if key is not None:
                 return eng.heap_read(self.ctx, obj, attr, key)
-            return self.class_attr(obj, obj.cls, attr)
+            try:
+                return self.class_attr(obj, obj.cls, attr)
+            except Unsupported:
+                # flow-sensitive narrowing: the attribute exists on a declared subclass; the receiver must be one
+                for sub in getattr(self.contract, "narrow", {}).get(obj.cls, ()):
+                    if any(attr in k.__dict__ for k in inspect.getmro(sub)) or eng.field_kind(sub, attr) is not None:
+                        cond = eng.isinstance(self, obj, sub)
+                        self.ctx.oblige(f"narrowing/{sub.__name__}.{attr}", cond if is_z3(cond) else z3.BoolVal(bool(cond)),
+                                        detail=f"receiver of .{attr} is a {sub.__name__} on this path")
+                        narrowed = SRef(obj.term, sub)
+                        k2 = eng.field_kind(sub, attr)
+                        if k2 is not None:
+                            return eng.heap_read(self.ctx, narrowed, attr, k2)
+                        return self.class_attr(narrowed, sub, attr)
+                raise
         if isinstance(obj, SuperProxy):
             return self.class_attr(obj.obj, obj.obj.cls, attr, mro=obj.after)
         if isinstance(obj, (SList, SListView, SSet, SDict)) or is_z3(obj) or hasattr(obj, "pyvc_method"):
